@@ -41,7 +41,8 @@ StrCases(n) ==
 \cup {[r |-> r, f |-> "at", a |-> a] : r \in Strs(n), a \in IntArgs(-4, 4)}
 \cup {[r |-> r, f |-> "truncate", a |-> a] : r \in Strs(n), a \in IntArgs(-1, 4) \cup {<<I(1), C(<<"$u$">>)>>, <<I(0), C(<<>>)>>, <<I(2), C(<<"!", "!">>)>>, <<IMax(0)>>}}
 \cup {[r |-> r, f |-> "repeat", a |-> a] : r \in Strs(n), a \in IntArgs(-1, 3)}
-\cup {[r |-> r, f |-> f, a |-> a] : r \in {C(<<>>), C(<<"a", "$e$">>)}, f \in {"repeat", "at", "truncate"}, a \in {<<IMax(0)>>, <<IMin(0)>>, <<IMax(-1)>>}}
+\cup {[r |-> r, f |-> f, a |-> a] : r \in {C(<<>>), C(<<"a">>), C(<<"a", "B">>), C(<<"a", "$e$">>), C(<<"a", "B", "a", "B">>), C(<<"$g$">>)},
+                                     f \in {"repeat", "at", "truncate"}, a \in {<<IMax(0)>>, <<IMin(0)>>, <<IMax(-1)>>, <<IMax(-2)>>, <<IMin(1)>>}}
 \cup {[r |-> r, f |-> "decimal", a |-> <<C(<<".">>), x>>] : r \in {C(<<"1">>), I(1)}, x \in {IMax(0), IMin(0)}}
 \cup {[r |-> A(<<I(1), I(2)>>), f |-> "slice", a |-> a] : a \in {<<IMax(0)>>, <<IMin(0)>>, <<I(0), IMax(0)>>, <<IMin(0), IMin(0)>>, <<IMax(0), I(1)>>}}
 \cup {[r |-> r, f |-> f, a |-> <<c>>] : r \in Strs(n), f \in {"trim", "trimLeft", "trimRight"}, c \in {C(<<"a">>), C(<<" ", "a">>), C(<<"$e$">>), C(<<>>)}}
@@ -103,7 +104,22 @@ ConvCases == {[r |-> r, f |-> "rec", a |-> <<x>>] : r \in ConvRecvs, x \in ConvV
 ConvRecord(c) == [src |-> "{{ r = " \o LitV(c.r) \o " }}{{ r.rec(" \o LitList(c.a) \o ") }}", recv |-> RecvDesc(c.r), args |-> [i \in 1..Len(c.a) |-> Desc(c.a[i])],
                   t |-> c.r.t, tags |-> <<"conv", c.r.t>>]
 
-Cases == CASE Family = "conv" -> ConvCases
+\* purity beyond one call: two calls on one receiver, and a call on a derived value, then everything is printed again
+TwiceFns == {"append", "prepend", "slice", "reverse", "join"}
+TwiceSrc(r, f, a1, a2) == "{{ r = " \o LitV(r) \o " }}{{ y = r." \o f \o "(" \o LitList(a1) \o ") }}{{ z = r." \o f \o "(" \o LitList(a2) \o ") }}{{ y }}|{{ z }}|{{ r }}"
+ChainSrc(r, s, e, f, a) == "{{ r = " \o LitV(r) \o " }}{{ y = r.slice(" \o ToString(s) \o ", " \o ToString(e) \o ")." \o f \o "(" \o LitList(a) \o ") }}{{ y }}|{{ r }}"
+ShowOr(v) == IF Bad(v) \/ ~PrintableB(v) THEN "?" ELSE ShowB(v)
+IntArr(n) == A([i \in 1..n |-> I(i)])
+TwiceCases == {[src |-> TwiceSrc(IntArr(n), f, a1, a2),
+                out |-> ShowB(CallFn(f, IntArr(n), a1)) \o "|" \o ShowB(CallFn(f, IntArr(n), a2)) \o "|" \o ShowB(IntArr(n))] :
+                 n \in 0..6, f \in {"append", "prepend"}, a1 \in {<<I(8)>>}, a2 \in {<<I(9)>>, <<I(9), I(7)>>}}
+         \cup {[src |-> ChainSrc(IntArr(n), s, e, f, <<I(9)>>),
+                out |-> ShowB(CallFn(f, CallFn("slice", IntArr(n), <<I(s), I(e)>>), <<I(9)>>)) \o "|" \o ShowB(IntArr(n))] :
+                 n \in 2..5, s \in 0..1, e \in 1..3, f \in {"append", "prepend", "reverse"}}
+TwiceRecord(c) == [src |-> c.src, data |-> <<>>, expect |-> [kind |-> "out", out |-> c.out], tags |-> <<"c11", "twice">>]
+
+Cases == CASE Family = "twice" -> TwiceCases
+           [] Family = "conv" -> ConvCases
            [] Family = "str2" -> StrCases(2) \cup ContainsCases(2, 1) \cup DecCases
            [] Family = "str3" -> StrCases(3) \cup ContainsCases(3, 2) \cup DecCases
            [] Family = "arr2" -> ArrCases(2) \cup SliceCases
@@ -138,7 +154,7 @@ LemmaCase == \A r \in Strs(2) : StrFn("lower", StrFn("upper", r, <<>>), <<>>) = 
 ASSUME LemmaLenRev /\ LemmaSlice /\ LemmaCase
 
 Init == cas \in Cases /\ rec = [src |-> ""]
-Next == rec.src = "" /\ rec' = (IF Family = "conv" THEN ConvRecord(cas) ELSE Record(cas)) /\ UNCHANGED cas
+Next == rec.src = "" /\ rec' = (IF Family = "conv" THEN ConvRecord(cas) ELSE IF Family = "twice" THEN TwiceRecord(cas) ELSE Record(cas)) /\ UNCHANGED cas
 Spec == Init /\ [][Next]_vars
 Total == (rec.src # "" /\ Family # "conv") => rec.expect.kind \in {"out", "err", "any", "oneof"}
 Gen == (rec.src # "" /\ Emit_) => PrintT(ToJson(rec))
